@@ -31,7 +31,10 @@ async def main():
     print("task created inside a public method:", await a.task)
     a = A()
     a.task = asyncio.create_task(a.worker())
-    print("task created outside:", await a.task)
+    try:
+        print("task created outside:", await a.task)
+    except icontract.ViolationError:
+        print("task created outside: violation (reported when the worker - a public method itself - ends)")
 
 
 asyncio.run(main())
